@@ -42,9 +42,9 @@ func init() {
 		Cases: func(t string) int {
 			enum := (c06EnumCount(c06MaxPages(t)) + c06Chunk - 1) / c06Chunk
 			if t == "thorough" {
-				return enum + 6000
+				return enum + 20000
 			}
-			return enum + 500
+			return enum + 2000
 		},
 		Batch:  func(t string) int { return 40 },
 		Floors: []string{"layouts_enumerated", "layouts_random", "layouts_from_files", "probes", "null_page_between_ordered_pages", "order_ascending", "order_descending", "order_unordered", "truncated_bounds", "duplicate_bounds", "probe_absent", "probe_present"},
